@@ -130,6 +130,10 @@ def check(rep):
         if out["kind"] == "unsupported":
             rep.unknown("C11.trace", label, "", f"interpreter: {out['msg']} on {out['tree']}")
             continue
+        if out["kind"] == "raise" and out["exc"] == "OverflowError":
+            rep.count("inputs_skipped_overflow")
+            d[1] += 1
+            continue
         if out["kind"] == "raise":
             if out["exc"] == "RecursionError":
                 rep.violation("C11.budget", label, out.get("origin", ""),
